@@ -3,10 +3,11 @@ import os, json, hashlib
 from .framework import *
 
 PROPERTY = 'C16'
-GEN_MODULES = []
-LEAN_TARGETS = ['ChibiVerif.Props.C16', 'ChibiVerif.Findings.C16']
-PROPS_FILES = ['ChibiVerif/Props/C16.lean']
-NEEDS_HOOKS = False
+GEN_MODULES = ['declspec']   # Gen/DeclspecGen.lean: the sizes type.c gives the scalar kinds (Model/C16Typing.lean `scalarSize`)
+LEAN_TARGETS = ['ChibiVerif.Props.C16', 'ChibiVerif.Findings.C16', 'ChibiVerif.Props.C16Qual', 'ChibiVerif.Props.C16Width',
+                'ChibiVerif.Findings.C16Types']
+PROPS_FILES = ['ChibiVerif/Props/C16.lean', 'ChibiVerif/Props/C16Qual.lean', 'ChibiVerif/Props/C16Width.lean']
+NEEDS_HOOKS = True
 TRUSTED_BASE = [
     'Lean 4.33.0 kernel; axioms admitted: propext, Classical.choice, Quot.sound (audited per theorem on every run)',
     'atomicity contract of the CPU (Intel SDM vol. 3A 8.1.1, 8.1.2.2, 8.2.3.8-9): `lock cmpxchg`, `xchg` with a memory operand and '
@@ -19,12 +20,30 @@ TRUSTED_BASE = [
     'is the model author\'s reading of the SDM; the private flag chain is additionally exercised by the stress runs',
     'the body `new = old op val` of the retry loop is an arbitrary function in the theorems (its value correctness is property C01/C02); '
     'the concrete operator semantics Op.fn used to predict stress results is validated against gcc and against the snapshot single-threaded',
-    'the propagation of the _Atomic qualifier through declspec/typedef/typeof/pointer/array/member derivation is tested (every listed '
-    'declaration form must emit `lock cmpxchg`), not proved',
+    'hand-written model lean/ChibiVerif/Model/C16Qual.lean of the is_atomic bookkeeping of parse.c (declspec, declarator, typedef, '
+    'typeof, struct_members, func_params, new_cast, to_assign, new_inc_dec) and type.c (copy_type, pointer_to, array_of, add_type arms); '
+    'it works on parse trees, not tokens: tied on every run by printing each generated tree as C text (the printer is part of the Lean '
+    'driver, lean/ChibiVerif/Driver/C16QualCmd.lean) and comparing the declared types at every level (each is_atomic flag) and the shape '
+    'of the update node with the AST dump of the hooked chibicc (-verif-dump-ast); the specification lean/ChibiVerif/Spec/C16QualSpec.lean '
+    '(C11 6.2.5/6.3.2.1/6.5.2-6.5.6/6.7.2.4/6.7.3/6.7.6/6.7.8, C23 6.7.2.5 for typeof) is the author\'s reading of the standard',
+    'hand-written model lean/ChibiVerif/Model/C16Typing.lean of the ND_CAS / ND_EXCH guards of type.c, run on every ND_CAS / ND_EXCH node '
+    'of the dumped programs and on described operand types whose rejection message must match; the shared byte-exact code-generation '
+    'model lean/ChibiVerif/Model/Codegen.lean (casArm, exchArm, load, store) is tied by property C20\'s assembly-text equality and here '
+    'again on the arms of the dumped nodes; the invariant SizeWf of the type table (hypothesis of C16_cas_width) is checked on every type '
+    'of every dump; scalar sizes are regenerated from type.c',
     'checklib/C16.py (generators, assembly extraction, matcher), gcc 12 + glibc pthreads for linking and as reference compiler',
 ]
 ASSUMPTIONS = [
     'objects are naturally aligned (chibicc aligns every scalar to its size; packed atomic members are not generated)',
+    'plain loads and stores of _Atomic objects are covered only for the scalar types the read-modify-write checker accepts (numeric or '
+    'pointer, at most 8 bytes: exactly one mov, theorem C16_plain_access_single).  Outside the model and NOT single-copy atomic: `_Atomic` '
+    'struct / union objects of any size (assignment and read are a byte-by-byte copy loop) and `_Atomic long double` (fldt / fstpt, 10 bytes). '
+    'Recorded observation on the test machine, unchanged tree: writer alternating {0,0} / {-1,-1} in an `_Atomic struct {int a, b;}`, 2*10^7 '
+    'reads: 12,827,249 torn (gcc: 0); `_Atomic long double` alternating 1.0L / -3.99..L, 5*10^7 reads: 4,432,777 torn.  These are not '
+    'read-modify-write operations (every RMW on such an object is a located diagnostic), hence outside the letter of C16',
+    'the specification of _Atomic propagation says nothing about: numeric `+`, `&` applied to an array (chibicc gives `&a` the type '
+    'pointer-to-element, C pointer-to-array), scopes (typedef names, objects and tags are three flat tables; a parameter is not visible '
+    'in later parameter declarations in chibicc), VLAs, tokens (C16_qualifier is about parse trees)',
     'the expected-value object of a compare-exchange and the hidden locals addr/old/new/val are private to the thread (a data race on them is undefined behaviour in C)',
     'memory-model effects beyond the three atomicity assumptions (store-buffer forwarding around plain atomic_store/atomic_load, i.e. the '
     'seq_cst fence an atomic_store needs) are outside the model',
@@ -750,6 +769,8 @@ PINGPONG = r'''
 typedef TYPE obj_t;
 static _Atomic obj_t x;
 static atomic_int turn;
+/* the expected-value object between two guard objects: a failure write-back wider than the object clobbers one of them */
+static struct { obj_t g0; obj_t e; obj_t g1; unsigned char tail[8]; } ex;
 static unsigned long bits_of(obj_t v) { unsigned long b = 0; memcpy(&b, &v, sizeof v); return b; }
 static void *B(void *p) {
   while (atomic_load(&turn) != 1) ;
@@ -760,20 +781,26 @@ static void *B(void *p) {
 int main(void) {
   pthread_t t;
   x = (obj_t)INITUL;
+  memset(&ex, 0x5a, sizeof ex);
   pthread_create(&t, 0, B, 0);
-  obj_t e = atomic_load(&x);
-  printf("val:%lu\n", bits_of(e));
+  ex.e = atomic_load(&x);
+  printf("val:%lu\n", bits_of(ex.e));
   atomic_store(&turn, 1);
   while (atomic_load(&turn) != 2) ;
-  int ok = atomic_compare_exchange_strong(&x, &e, (obj_t)DES1UL);
-  printf("cas:%d:%lu\n", ok, bits_of(e));
-  ok = atomic_compare_exchange_weak(&x, &e, (obj_t)DES2UL);
-  printf("cas:%d:%lu\n", ok, bits_of(e));
+  int ok = atomic_compare_exchange_strong(&x, &ex.e, (obj_t)DES1UL);
+  printf("cas:%d:%lu\n", ok, bits_of(ex.e));
+  ok = atomic_compare_exchange_weak(&x, &ex.e, (obj_t)DES2UL);
+  printf("cas:%d:%lu\n", ok, bits_of(ex.e));
   obj_t p = atomic_exchange(&x, (obj_t)DES1UL);
   printf("val:%lu\n", bits_of(p));
   pthread_join(t, 0);
   obj_t f = x;
   printf("cell=%lu\n", bits_of(f));
+  int clobbered = 0;
+  unsigned char *raw = (unsigned char *)&ex;
+  for (unsigned i = 0; i < sizeof ex; i++)
+    if ((i < sizeof(obj_t) || i >= 2 * sizeof(obj_t)) && raw[i] != 0x5a) clobbered++;
+  printf("clobbered=%d\n", clobbered);
   return 0;
 }
 '''
@@ -813,7 +840,7 @@ def pingpong(ctx, corr):
             if not mm:
                 corr.disagreements.append({'kind': 'model could not run the ping-pong schedule', 'query': q, 'answer': ans})
                 return
-            model_lines = mm.group(2).split() + [f'cell={mm.group(1)}']
+            model_lines = mm.group(2).split() + [f'cell={mm.group(1)}', 'clobbered=0']
             impl_lines = o.split()
             corr.nontrivial.add(f'pp:{tag}:{init}:{bval}:{d1}:{d2}:{bkind}')
             want_fail = f'cas:0:{bval}'
@@ -822,9 +849,355 @@ def pingpong(ctx, corr):
                 return
             if impl_lines != model_lines:
                 corr.violations.append({'what': 'compare-exchange failure path: returned flag / written-back expected value / object differ from the '
-                                        'sequential specification', 'input': desc, 'expected': ' '.join(model_lines), 'got': ' '.join(impl_lines), 'program': text})
+                                        'sequential specification, or bytes outside the expected-value object were written', 'input': desc, 'expected': ' '.join(model_lines), 'got': ' '.join(impl_lines), 'program': text})
                 return
     corr.sample({'pingpong': desc, 'model=implementation': ' '.join(model_lines)})
+
+# ------------------------------------------------------------------------------------------------ leg 5: typing of ND_CAS / ND_EXCH: one width
+
+# operand descriptions understood by `drv_c16 castype`: (C declaration of a pointer to it named N, bytes, kind for the model sequence)
+OPERANDS = {
+    'bool': ('_Bool *N', 1, 's'), 'char': ('char *N', 1, 's'), 'uchar': ('unsigned char *N', 1, 'u'),
+    'short': ('short *N', 2, 's'), 'ushort': ('unsigned short *N', 2, 'u'), 'int': ('int *N', 4, 's'),
+    'uint': ('unsigned *N', 4, 'u'), 'long': ('long *N', 8, 's'), 'ulong': ('unsigned long *N', 8, 'u'),
+    'float': ('float *N', 4, 'f'), 'double': ('double *N', 8, 'f'), 'ldouble': ('long double *N', 16, None),
+    'enum': ('enum E *N', 4, 's'), 'p': ('int **N', 8, 'u'), 'void': ('void *N', 1, None),
+    'struct1': ('struct S1 *N', 1, None), 'struct2': ('struct S2 *N', 2, None), 'struct4': ('struct S4 *N', 4, None),
+    'struct8': ('struct S8 *N', 8, None), 'struct12': ('struct S12 *N', 12, None), 'union4': ('union U4 *N', 4, None),
+    'arr3': ('char (*N)[3]', 3, None), 'arr4': ('char (*N)[4]', 4, None), 'arr8': ('char (*N)[8]', 8, None),
+}
+OPERAND_DEFS = ('enum E { EA, EB }; struct S1 { char c[1]; }; struct S2 { char c[2]; }; struct S4 { char c[4]; }; struct S8 { char c[8]; }; '
+                'struct S12 { char c[12]; }; union U4 { char c[4]; };\n')
+NONPTR = {'int': 'int N', 'long': 'long N'}
+CAS_MSG = {'ptr-addr': 'pointer expected', 'ptr-old': 'pointer expected',
+           'large': 'atomic operations on objects larger than 8 bytes are not supported',
+           'aggr-addr': 'atomic operations on aggregates are not supported', 'aggr-old': 'atomic operations on aggregates are not supported',
+           'size': 'the expected value must have the size of the atomic object'}
+
+def operand_decl(desc, name):
+    if desc.startswith('p:'):
+        return OPERANDS[desc[2:]][0].replace('N', name) + ';'
+    return NONPTR[desc].replace('N', name) + ';'
+
+def operand_bytes(desc):
+    return OPERANDS[desc[2:]][1] if desc.startswith('p:') else None
+
+GUARD_PROG = r"""
+#include <stdio.h>
+#include <string.h>
+DEFS
+/* a failing compare-exchange (object 0x11.., expected 0x22..) must store the observed value into the expected-value object and
+   touch nothing else: 16 guard bytes on either side of it, for every width */
+#define TEST(TA, TO) { static TA obj; static struct { unsigned char before[16]; TO e; unsigned char after[16]; } s; \
+  memset(&obj, 0x11, sizeof obj); memset(&s, 0x22, sizeof s); \
+  int ok = __builtin_compare_and_swap(&obj, &s.e, (TA)0); int bad = 0; \
+  for (int i = 0; i < 16; i++) { if (s.before[i] != 0x22) bad++; if (s.after[i] != 0x22) bad++; } \
+  if (sizeof(TA) == sizeof(TO) && memcmp(&s.e, &obj, sizeof obj)) bad += 100; \
+  printf("object=%d expected=%d ok=%d clobbered=%d\n", (int)sizeof(TA), (int)sizeof(TO), ok, bad); total += bad; }
+int main(void) {
+  int total = 0;
+  TESTS
+  return total != 0;
+}
+"""
+
+def guard_program(pairs):
+    return GUARD_PROG.replace('DEFS', OPERAND_DEFS).replace('TESTS', ' '.join(f'TEST({a}, {o})' for a, o in pairs))
+
+ALL_WIDTHS = [('unsigned char', 'unsigned char'), ('short', 'short'), ('int', 'int'), ('long', 'long'), ('float', 'float'), ('double', 'double'),
+              ('int *', 'int *')]
+
+def cas_arm_widths(lines, at):
+    """widths (bytes) of the three operands of the ND_CAS arm around the `lock cmpxchg` at lines[at], read off the registers"""
+    W = {'%al': 1, '%ax': 2, '%eax': 4, '%rax': 8, '%dl': 1, '%dx': 2, '%edx': 4, '%rdx': 8}
+    m = re.fullmatch(r'lock cmpxchg (%\w+), \(%rdi\)', lines[at])
+    wx = W.get(m.group(1)) if m else None
+    wb = None
+    for l in lines[at + 1: at + 5]:
+        m = re.fullmatch(r'mov (%\w+), \(%r8\)', l)
+        if m:
+            wb = W.get(m.group(1))
+    ld = None
+    j = at - 1
+    while j >= 0 and lines[j].startswith('pop '):
+        j -= 1
+    if j >= 1 and lines[j - 1] == 'mov %rax, %r8':
+        l = lines[j]
+        m = re.fullmatch(r'mov \(%rax\), (%\w+)', l)
+        if m:
+            ld = W.get(m.group(1))
+        elif re.fullmatch(r'mov[sz]bl \(%rax\), %eax', l):
+            ld = 1
+        elif re.fullmatch(r'mov[sz]wl \(%rax\), %eax', l):
+            ld = 2
+        elif l == 'movsxd (%rax), %rax':
+            ld = 4
+    elif j >= 0 and lines[j] == 'mov %rax, %r8':
+        ld = 0          # nothing is loaded at all: the ADDRESS of the expected value is compared
+    return ld, wx, wb
+
+def castypes(ctx, corr, keep_going=False):
+    """generated family of (atomic object, expected object) operand types for __builtin_compare_and_swap and of objects for
+    __builtin_atomic_exchange: the real type checker must accept exactly what Model/C16Typing.lean accepts, with the same message
+    when it rejects; an accepted compare-exchange must use ONE width = sizeof(*addr) = sizeof(*old) for the load of the expected
+    value, the lock cmpxchg and the failure write-back (read off the emitted registers, independent of the model)"""
+    rng = ctx.rng
+    descs = ['p:' + d for d in OPERANDS]
+    pairs = [('p:long', 'p:int'), ('p:int', 'p:long'), ('p:int', 'p:ldouble'), ('p:ldouble', 'p:ldouble'), ('p:int', 'p:struct4'),
+             ('p:struct4', 'p:struct4'), ('p:arr3', 'p:arr3'), ('p:arr4', 'p:int'), ('p:int', 'p:arr4'), ('p:void', 'p:char'),
+             ('int', 'p:int'), ('p:int', 'int'), ('p:p', 'p:long'), ('p:double', 'p:long'), ('p:float', 'p:int'), ('p:ushort', 'p:short'),
+             ('p:bool', 'p:uchar'), ('p:enum', 'p:float'), ('p:char', 'p:short'), ('p:ulong', 'p:uint'), ('p:union4', 'p:int'),
+             ('p:struct8', 'p:long'), ('p:long', 'p:struct8'), ('p:arr8', 'p:arr8'), ('p:struct12', 'p:struct12'), ('p:uchar', 'p:uint')]
+    allp = [(a, o) for a in descs for o in descs]
+    if ctx.thorough:
+        pairs += allp
+    else:
+        pairs += rng.sample(allp, 110)
+    pairs = list(dict.fromkeys(pairs))
+    answers = ctx.driver('castype', ''.join(f'{a} {o}\n' for a, o in pairs)).splitlines()
+    for (a, o), ans in zip(pairs, answers):
+        corr.evaluations += 1
+        corr.count('castype')
+        mcas = ans.split(' / ')[0]
+        src = OPERAND_DEFS + operand_decl(a, 'p') + ' ' + operand_decl(o, 'q') + '\nint fcas(void) { return __builtin_compare_and_swap(p, q, 1); }\n'
+        rc, asm, err = cc_S(ctx, src, 'castype')
+        ba, bo = operand_bytes(a), operand_bytes(o)
+        key = f'castype:{a}:{o}'
+        if ba != bo:
+            corr.nontrivial.add(key)
+        if rc == 0:
+            lines = functions(asm).get('fcas', [])
+            at = [i for i, l in enumerate(lines) if l.startswith('lock cmpxchg')]
+            ld, wx, wb = cas_arm_widths(lines, at[0]) if len(at) == 1 else (None, None, None)
+            scal_a = a.startswith('p:') and OPERANDS[a[2:]][2] is not None
+            scal_o = o.startswith('p:') and OPERANDS[o[2:]][2] is not None
+            # the property's own reading (independent of the model): one width, equal to both object sizes, both objects scalar
+            if not (scal_a and scal_o and ba == bo and ld == wx == wb == ba):
+                v = {'what': 'compare-exchange accepted although the expected-value object and the atomic object are not scalars of one size '
+                             '(load of the expected value / lock cmpxchg / failure write-back use different widths)',
+                     'input': src, 'expected': 'a located diagnostic (or one width for all three operands)',
+                     'got': f'sizeof(*addr)={ba} sizeof(*old)={bo}; expected-value load {ld} bytes, lock cmpxchg {wx} bytes, write-back {wb} bytes'}
+                if scal_a and scal_o:
+                    # a runnable witness: the accepted pair (if the expected object is the smaller one) and every equal-width pair, with guard bytes
+                    ta = OPERANDS[a[2:]][0].replace(' *N', '').replace('*N', '*')
+                    to = OPERANDS[o[2:]][0].replace(' *N', '').replace('*N', '*')
+                    prs = ([(ta, to)] if bo < ba <= 8 else []) + ALL_WIDTHS
+                    v['program'] = guard_program(prs)
+                    kind, rc2, o2, e2 = build_run(ctx, v['program'], 'castype_guard', 30)
+                    v['got'] += ' || run with guard bytes: ' + (o2.strip().replace('\n', '; ') if kind == 'run' else f'{kind} failed: {e2[-200:]}')
+                corr.violations.append(v)
+                return
+            if not mcas.startswith('ok'):
+                corr.disagreements.append({'kind': 'ND_CAS typing: model rejects, chibicc accepts', 'operands': f'{a} {o}', 'model': mcas})
+                if keep_going and len(corr.disagreements) < 6:
+                    continue
+                return
+            model = model_seq(ctx, f'cas {ba} {OPERANDS[o[2:]][2]}')
+            bad = match_fixed(model, lines, at[0], model.index(next(x for x in model if x.startswith('lock cmpxchg'))))
+            if bad:
+                corr.disagreements.append({'kind': 'ND_CAS arm differs from the model sequence of its width', 'operands': f'{a} {o}', 'difference': bad})
+                if keep_going and len(corr.disagreements) < 6:
+                    continue
+                return
+        else:
+            if 'internal error' in err or rc != 1 or not re.search(r'castype\.c:\d+:', err):
+                corr.violations.append({'what': 'compare-exchange on unsupported operand types is not answered with a located diagnostic',
+                                        'input': src, 'expected': 'exit 1 and file:line: message', 'got': f'rc={rc} {err[-300:]}'})
+                return
+            if mcas.startswith('ok'):
+                corr.disagreements.append({'kind': 'ND_CAS typing: model accepts, chibicc rejects', 'operands': f'{a} {o}', 'stderr': err[-200:]})
+                if keep_going and len(corr.disagreements) < 6:
+                    continue
+                return
+            if CAS_MSG.get(mcas, '?') not in err:
+                corr.disagreements.append({'kind': 'ND_CAS typing: different diagnostic', 'operands': f'{a} {o}', 'model': mcas, 'stderr': err[-200:]})
+                if keep_going and len(corr.disagreements) < 6:
+                    continue
+                return
+    # exchange: one operand
+    singles = descs + ['int']
+    answers = ctx.driver('castype', ''.join(f'{a} p:int\n' for a in singles)).splitlines()
+    for a, ans in zip(singles, answers):
+        corr.evaluations += 1
+        corr.count('exchtype')
+        mx = ans.split(' / ')[1]
+        src = OPERAND_DEFS + operand_decl(a, 'p') + '\nvoid fx(void) { __builtin_atomic_exchange(p, 1); }\n'
+        rc, asm, err = cc_S(ctx, src, 'exchtype')
+        corr.nontrivial.add('exchtype:' + a)
+        if rc == 0:
+            lines = functions(asm).get('fx', [])
+            nx = [l for l in lines if l.startswith('xchg ')]
+            scal = a.startswith('p:') and OPERANDS[a[2:]][2] is not None
+            W = {'%al': 1, '%ax': 2, '%eax': 4, '%rax': 8}
+            wx = W.get(re.fullmatch(r'xchg (%\w+), \(%rdi\)', nx[0]).group(1)) if len(nx) == 1 else None
+            if not (scal and wx == operand_bytes(a)):
+                corr.violations.append({'what': 'atomic exchange accepted on an object that is not a scalar of 1, 2, 4 or 8 bytes, or emitted with another width',
+                                        'input': src, 'expected': 'a located diagnostic', 'got': f'xchg of {wx} bytes for an object of {operand_bytes(a)} bytes'})
+                return
+            if not mx.startswith('ok'):
+                corr.disagreements.append({'kind': 'ND_EXCH typing: model rejects, chibicc accepts', 'operand': a, 'model': mx})
+                if keep_going and len(corr.disagreements) < 6:
+                    continue
+                return
+        else:
+            if 'internal error' in err or rc != 1 or not re.search(r'exchtype\.c:\d+:', err):
+                corr.violations.append({'what': 'atomic exchange on an unsupported operand type is not answered with a located diagnostic',
+                                        'input': src, 'expected': 'exit 1 and file:line: message', 'got': f'rc={rc} {err[-300:]}'})
+                return
+            if mx.startswith('ok') or CAS_MSG.get(mx, '?') not in err:
+                corr.disagreements.append({'kind': 'ND_EXCH typing: model and chibicc differ', 'operand': a, 'model': mx, 'stderr': err[-200:]})
+                if keep_going and len(corr.disagreements) < 6:
+                    continue
+                return
+    corr.sample({'castype': 'long *p; int *q; __builtin_compare_and_swap(p, q, 1)', 'model=chibicc': CAS_MSG['size']})
+
+def casnodes(ctx, corr):
+    """every ND_CAS / ND_EXCH node of the typed AST of the tie programs (what the real checker accepted): Model/C16Typing.lean accepts
+    it, the hypotheses of C16_cas_width hold (SizeWf of the two pointee types - and of every type of the table -, cas_new has the kind
+    of the object), and Codegen.casArm / exchArm print the interleaving model's lines for the one width"""
+    for tag in TY:
+        src, funcs = tie_source(tag)
+        path = os.path.join(ctx.scratch, f'nodes_{tag}.c')
+        open(path, 'w').write(src)
+        dump = path + '.dump'
+        rc, o, e = sh([ctx.cch, '-I' + os.path.join(ctx.hooked, 'include'), '-S', '-o', '/dev/null', '-verif-dump-ast', dump, path], timeout=120)
+        if rc != 0 or not os.path.exists(dump):
+            corr.disagreements.append({'kind': 'casnodes: the hooked build rejects the tie program', 'type': TY[tag][1], 'stderr': e[-300:]})
+            return
+        exe, err = ctx.build_driver()
+        if exe is None:
+            raise ModelBuildFailure(err)
+        rc, o, e = sh([exe, 'casnodes', dump], timeout=300)
+        lines = o.splitlines()
+        if rc != 0 or not lines or not lines[0].startswith('types='):
+            corr.disagreements.append({'kind': 'casnodes: the driver cannot read the dump', 'type': TY[tag][1], 'output': (o + e)[-300:]})
+            return
+        if 'sizewf-violations=0' not in lines[0]:
+            corr.disagreements.append({'kind': 'type table violates SizeWf (a scalar kind with another size than type.c gives it)', 'type': TY[tag][1], 'line': lines[0]})
+            return
+        nodes = lines[1:]
+        want = sum(1 for _, kind, _ in funcs if kind in ('rmw', 'cas', 'xchg'))
+        if len(nodes) != want:
+            corr.disagreements.append({'kind': 'casnodes: number of ND_CAS/ND_EXCH nodes', 'type': TY[tag][1], 'expected': want, 'got': len(nodes)})
+            return
+        for l in nodes:
+            corr.evaluations += 1
+            corr.count('casnode')
+            corr.nontrivial.add('casnode:' + tag + ':' + l.split(' ')[0])
+            okc = ' cas check=ok wf=true ' in l and 'newkind-ok=true arm=true' in l and f'bytes={TY[tag][2]} oldbytes={TY[tag][2]}' in l
+            okx = ' exch check=ok wf=true ' in l and 'arm=true' in l and f'bytes={TY[tag][2]}' in l
+            if not (okc or okx):
+                corr.disagreements.append({'kind': 'an ND_CAS/ND_EXCH node the real type checker accepted fails the typing model or a hypothesis of C16_cas_width',
+                                           'type': TY[tag][1], 'node': l[:300]})
+                return
+
+# ------------------------------------------------------------------------------------------------ leg 6: _Atomic propagation (declarations -> lvalue -> update path)
+
+QUAL_MSG = [
+    ('bit-field has atomic type', {'atomic-bitfield'}), ('bit-field has non-integer type', {'bitfield-not-integer'}),
+    ('atomic operations on objects larger than 8 bytes are not supported', {'rmw-rejected'}),
+    ('atomic operations on aggregates are not supported', {'rmw-rejected'}),
+    ('invalid operands', {'rmw-rejected', 'invalid-operands'}), ('invalid pointer dereference', {'invalid-deref'}),
+    ('dereferencing a void pointer', {'deref-void'}), ('cannot take address of bitfield', {'addr-of-bitfield'}),
+    ('not a struct nor a union', {'not-a-struct'}), ('no such member', {'no-such-member'}), ('not a function', {'not-a-function'}),
+    ('variable declared void', {'declared-void'}), ('undefined variable', {'undefined-variable'}),
+]
+
+def qual_cases(ctx):
+    from . import c16_qualgen as G
+    n = 400 if not ctx.thorough else 6000
+    cases = [(c, None) for c in G.FIXED]
+    for _ in range(n):
+        text, names, t = G.gen_case(ctx.rng)
+        cases.append((text, names))
+    return cases
+
+def qualifier(ctx, corr, cases=None, keep_going=False):
+    """model (Model/C16Qual.lean) vs real parser (AST dump) on declared types and the update path; specification
+    (Spec/C16QualSpec.lean) vs real parser: an lvalue the C semantics makes atomic must be updated by the compare-and-swap loop
+    (or rejected with a located diagnostic), never by a plain load-operate-store"""
+    if cases is None:
+        cases = qual_cases(ctx)
+    out = ctx.driver('qual', ''.join(c + '\n' for c, _ in cases)).splitlines()
+    if len(out) != len(cases):
+        corr.disagreements.append({'kind': 'qualifier: driver answered a different number of lines', 'expected': len(cases), 'got': len(out)})
+        return
+    work = os.path.join(ctx.scratch, 'qual')
+    os.makedirs(work, exist_ok=True)
+    todo = []
+    for i, ((case, _), line) in enumerate(zip(cases, out)):
+        f = dict(x.split('=', 1) for x in line.split('\t') if '=' in x)
+        if 'C' not in f:
+            corr.disagreements.append({'kind': 'qualifier: the driver cannot read the case', 'case': case, 'answer': line[:200]})
+            return
+        src = os.path.join(work, f'q{i}.c')
+        open(src, 'w').write(f['C'] + '\n')
+        dump, asm = src + '.dump', src + '.s'
+        rc, o, e = sh([ctx.cch, '-S', '-o', asm, '-verif-dump-ast', dump, src], timeout=60)
+        names = ','.join(x.split('=', 1)[0] for x in f['types'].split(';') if x)
+        todo.append((case, f, src, dump, asm, rc, e, names))
+    complete = [t for t in todo if t[5] == 0 and os.path.exists(t[3])]
+    real = ctx.driver('qualdumps', ''.join(f'{t[3]} {t[7]}\n' for t in complete)).splitlines() if complete else []
+    realof = {t[2]: r for t, r in zip(complete, real)}
+    for case, f, src, dump, asm, rc, e, names in todo:
+        corr.evaluations += 1
+        mpath, spec = f['path'], f.get('spec', '')
+        atomic_lv = spec.startswith('lv:atomic')
+        corr.count('qual:' + ('atomic-lvalue' if atomic_lv else 'spec-none' if spec.endswith('none') else 'plain-lvalue'))
+        key = 'qual:' + hashlib.sha1(case.encode()).hexdigest()[:12]
+        if atomic_lv:
+            corr.nontrivial.add(key)
+        if mpath == 'diag:unmodelled':
+            corr.count('skipped_unmodelled')
+            continue
+        ctext = f['C']
+        if rc != 0:
+            located = rc == 1 and re.search(r'q\d+\.c:\d+:', e) and 'internal error' not in e
+            if not located:
+                corr.violations.append({'what': 'declaration / update of an _Atomic object is not answered with output or a located diagnostic',
+                                        'input': ctext, 'expected': 'exit 0, or exit 1 and file:line: message', 'got': f'rc={rc} {e[-300:]}', 'case': case})
+                return
+            tags = set()
+            for msg, tg in QUAL_MSG:
+                if msg in e:
+                    tags |= tg
+            corr.count('qual:rejected')
+            if not mpath.startswith('diag:') or mpath[5:] not in tags:
+                corr.disagreements.append({'kind': '_Atomic propagation: chibicc rejects, the model predicts ' + mpath, 'input': ctext, 'stderr': e[-200:], 'case': case})
+                if keep_going and len(corr.disagreements) < 6:
+                    continue
+                return
+            continue
+        r = realof.get(src, '')
+        rf = dict(x.split('=', 1) for x in r.split('\t') if '=' in x)
+        rpath = rf.get('path', '?')
+        ncas = len(re.findall(r'^\s*lock cmpxchg', open(asm).read(), re.M)) if os.path.exists(asm) else -1
+        # specification vs implementation (the property itself)
+        if atomic_lv and not rpath.startswith('cas:'):
+            corr.violations.append({'what': 'an lvalue of _Atomic type is updated by a plain load-operate-store sequence, not by the compare-and-swap loop',
+                                    'input': ctext, 'expected': 'the compare-and-swap loop (one lock cmpxchg) or a diagnostic',
+                                    'got': f'update node shape `{rpath}`, {ncas} lock cmpxchg in the assembly', 'case': case})
+            return
+        if atomic_lv and ':rmw' in spec and (rpath != 'cas:' + spec.split(':rmw')[1] or ncas != 1):
+            corr.violations.append({'what': 'the compare-and-swap loop of an _Atomic lvalue has not the width of the object (or is not one lock cmpxchg)',
+                                    'input': ctext, 'expected': 'cas:' + spec.split(':rmw')[1] + ', one lock cmpxchg', 'got': f'{rpath}, {ncas} lock cmpxchg', 'case': case})
+            return
+        # model vs implementation (the tie)
+        if rf.get('types') != f['types'] or rpath != mpath:
+            corr.disagreements.append({'kind': '_Atomic propagation: model and real parser differ', 'input': ctext,
+                                       'model': f"types={f['types']} path={mpath}", 'chibicc': f"types={rf.get('types')} path={rpath}", 'case': case})
+            if keep_going and len(corr.disagreements) < 6:
+                continue
+            return
+        if (rpath.startswith('cas:')) != (ncas == 1) or (not rpath.startswith('cas:') and ncas != 0):
+            corr.disagreements.append({'kind': 'update node shape and number of lock cmpxchg in the assembly do not agree', 'input': ctext,
+                                       'shape': rpath, 'lock_cmpxchg': ncas, 'case': case})
+            if keep_going and len(corr.disagreements) < 6:
+                continue
+            return
+    if todo:
+        case, f = todo[0][0], todo[0][1]
+        corr.sample({'qualifier': f['C'], 'model=chibicc': f"types={f['types']} path={f['path']}", 'spec': f.get('spec')})
 
 # ------------------------------------------------------------------------------------------------ corpus (past failures, replayed first)
 
@@ -875,16 +1248,30 @@ def correspond(ctx, corr):
     corr.rule = ('(1) tie: for every operator (+= -= *= /= %= &= |= ^= <<= >>= ++x --x x++ x--) x type (signed/unsigned char, short, int, long, '
                  '_Bool, pointer, float, double) x storage (static, automatic, through a pointer, struct member, array element) and every stdatomic.h '
                  'macro (fetch_add/sub/or/xor/and [+_explicit], exchange, compare_exchange_strong/weak, load, store, init, flag_*) the lines chibicc -S '
-                 'emits must equal the sequence rendered by the Lean model, and 42 declaration forms of _Atomic (typedef, typeof, pointer, array, member, '
-                 'union, parameter, static local, stdatomic typedefs) must emit the expected number of lock cmpxchg.  (2) operator semantics: Op.fn == gcc '
+                 'emits must equal the sequence rendered by the Lean model, and 42 declaration forms of _Atomic must emit the expected number of lock '
+                 'cmpxchg.  (1b) every ND_CAS / ND_EXCH node of the typed AST of those programs (hooked build, -verif-dump-ast) passes the typing model, '
+                 'satisfies the hypotheses of C16_cas_width (SizeWf on the whole type table, kind of cas_new) and Codegen.casArm/exchArm print the '
+                 'interleaving model\'s lines.  (1c) operand-type family for __builtin_compare_and_swap (object type x expected type over 24 type '
+                 'descriptions incl. long double, void, structs/unions of 1..12 bytes, arrays, non-pointers) and __builtin_atomic_exchange: accepted '
+                 'exactly when the typing model accepts, same diagnostic text when rejected, never an internal error; when accepted, the widths of '
+                 'the expected-value load, the lock cmpxchg and the failure write-back are read off the emitted registers and must all equal '
+                 'sizeof(*addr) = sizeof(*old) (independent of the model).  (1d) _Atomic propagation: hand-written and generated parse trees '
+                 '(typedef chains, _Atomic(T), typeof(type), typeof(expr), struct/union members incl. bit-fields and self-reference, arrays, '
+                 'pointers, parameters, functions returning pointers, static/extern/_Thread_local/block-scope objects; lvalues built with * & . -> '
+                 '[] + casts calls parentheses; all 14 update operators) are printed as C by the Lean driver, compiled by the hooked chibicc, and the '
+                 'declared type of every object (every level, every is_atomic flag) and the shape of the update node (compare-and-swap loop with its '
+                 'width / plain member / plain deref / plain inc-dec / diagnostic) must equal the model\'s; independently the specification '
+                 '(Spec/C16QualSpec.lean run through the driver) decides whether the lvalue is atomic in C and then the real update node must be the '
+                 'loop of the object\'s width with exactly one lock cmpxchg in the assembly, or a located diagnostic.  (2) operator semantics: Op.fn == gcc '
                  '== snapshot on boundary+random operands.  (3) stress: N in 2..16 pthreads x 10^5 iterations per phase on static / automatic / heap / '
                  'member objects, released together by a start barrier; final object bits vs the linearizable prediction computed by the model '
                  '(drv_c16 fold); returned values of atomic_fetch_add/sub, x++, ++x must be pairwise distinct and cover [init, init+N*K); exchange '
                  'tokens must form a permutation chain; own-bit checks for fetch_or/and/xor and |= &=.  (4) two-thread ping-pong forcing a failed '
-                 'compare-exchange: returned flags, written-back expected value and object vs the model run on the same schedule.  '
-                 'non-trivial = distinct function/sequence pairs (tie), operand pairs without 0/1 (semantics), multi-thread phases (stress), '
-                 'forced-failure cases (ping-pong).')
-    for leg in (corpus, tie, opsem, pingpong, stress):
+                 'compare-exchange: returned flags, written-back expected value and object vs the model run on the same schedule, and every byte '
+                 'around the expected-value object (guard objects on both sides) must be untouched.  '
+                 'non-trivial = distinct function/sequence pairs (tie), ND_CAS/ND_EXCH nodes, operand pairs of different sizes (typing), cases whose '
+                 'lvalue is atomic in C (propagation), operand pairs without 0/1 (semantics), multi-thread phases (stress), forced-failure cases (ping-pong).')
+    for leg in (corpus, tie, casnodes, castypes, qualifier, opsem, pingpong, stress):
         leg(ctx, corr)
         if corr.violations:
             return      # one concrete failing input is enough; the remaining legs would only repeat it (or hang on it)
@@ -905,11 +1292,17 @@ def search(ctx, broken, corr):
     th = ctx.thorough
     try:
         ctx.thorough = True
-        pingpong(ctx, c2)
+        # typing / propagation legs at thorough size: their oracle halves (one width read off the registers; the C semantics of
+        # the declarations) do not depend on the model that broke
+        for leg in (lambda c, k: castypes(c, k, keep_going=True), lambda c, k: qualifier(c, k, keep_going=True), pingpong):
+            try:
+                leg(ctx, c2)
+            except (ModelBuildFailure, RuntimeError):
+                continue
+            if c2.violations:
+                return c2.violations[0]
     finally:
         ctx.thorough = th
-    if c2.violations:
-        return c2.violations[0]
     t0 = time.time()
     for nt in (16, 4, 2):
         for st in ('static', 'heap', 'member', 'auto'):
@@ -924,6 +1317,14 @@ def search(ctx, broken, corr):
 def replay(ctx, corr, path):
     payload = json.load(open(path))
     text = payload.get('program')
+    if payload.get('case'):
+        corr.extra['replay'] = 'declaration / lvalue case: re-running the _Atomic propagation leg on it'
+        qualifier(ctx, corr, cases=[(payload['case'], None)])
+        return
+    if not text and 'compare_and_swap' in str(payload.get('input', '')) or 'atomic_exchange(p, 1)' in str(payload.get('input', '')):
+        corr.extra['replay'] = 'operand-type case: re-running the typing leg'
+        castypes(ctx, corr)
+        return
     if not text:
         corr.extra['replay'] = 'replay file carries no program (tie or declaration-form failure): re-running the tie'
         tie(ctx, corr)
@@ -936,6 +1337,9 @@ def replay(ctx, corr, path):
     for line in o.splitlines():
         w = line.split()
         if len(w) == 6 and w[0] == 'R' and int(w[3]) != 0:
+            bad = True
+        m = re.search(r'clobbered=(\d+)', line)
+        if m and int(m.group(1)) != 0:
             bad = True
     if bad:
         corr.violations.append({'what': payload.get('what', 'replayed program fails'), 'input': payload.get('input'), 'expected': payload.get('expected'),
@@ -955,16 +1359,31 @@ MANIFEST = {
                   'C16_cas_spec (a compare-exchange succeeds iff the object equals the expected value at the locked instruction, else stores the '
                   'observed value into the expected-value object; only the low w bits compare, whatever the upper register bits), C16_lockfree '
                   '(a failed attempt implies a commit of another thread since the last read) and C16_lockfree_progress (a thread in a retry loop '
-                  'executes at most 30 instructions without some operation committing), C16_exchange.  The sequences are tied to the compiler on '
-                  'every run by text equality with chibicc -S for every operator x type x storage class and every stdatomic.h macro; the trusted '
-                  'atomicity of lock cmpxchg / xchg / aligned mov is validated by multi-thread stress, return-value uniqueness and forced-failure runs.',
+                  'executes at most 30 instructions without some operation committing), C16_exchange.  Typing of the primitives (type.c ND_CAS / '
+                  'ND_EXCH): C16_cas_accepts_iff, C16_cas_width, C16_cas_operands, C16_exch_width - every node the type checker accepts operates on '
+                  'numeric or pointer objects of ONE width w in {1,2,4,8} = sizeof(*addr) = sizeof(*old), and the byte-exact code-generation model '
+                  'prints for it exactly the interleaving model\'s sequence of that width (expected-value load, lock cmpxchg, failure write-back); '
+                  'C16_plain_access_single (objects of those types are read and written by exactly one mov).  _Atomic propagation: C16_qualifier, '
+                  'C16_qualifier_never_plain, C16_qualifier_accepts - for every declaration sequence and lvalue expression of the modelled syntax, '
+                  'if the C semantics (C11 6.7.6/6.7.3/6.7.2.4/6.5.x, C23 typeof) makes the lvalue atomic, chibicc compiles every op=, ++, -- on '
+                  'it to the compare-and-swap loop of the object\'s width or rejects it with a diagnostic (long double, struct, union), never to a '
+                  'plain load-operate-store.  The sequences are tied to the compiler on every run by text equality with chibicc -S for every '
+                  'operator x type x storage class and every stdatomic.h macro; the typing and propagation models by the typed AST dump of the '
+                  'hooked build and the diagnostics on generated operand types and generated declarations; the trusted atomicity of lock cmpxchg / '
+                  'xchg / aligned mov is validated by multi-thread stress, return-value uniqueness and forced-failure runs with guard bytes.',
     'level_note': 'Trusted: Lean kernel (axioms propext, Classical.choice, Quot.sound; audited each run); the CPU atomicity contract (Intel SDM vol. 3A '
                   '8.1/8.2) which is the model\'s step relation; the hand model of the instruction meanings, tied by assembly text equality '
                   '(testing) and by the stress/ping-pong runs; the loop body new = old op val is an arbitrary function in the general theorems and '
-                  'Op.fn (validated against gcc and the snapshot) in C16_opassign_no_lost_update.  _Atomic qualifier propagation through declarators '
-                  '(DESIGN C16_qualifier) is tested on 42 declaration forms and 5 storage classes, not proved.  Memory-ordering effects of plain '
-                  'atomic_store/atomic_load beyond single-copy atomicity are outside the model.',
-    'technique': 'Lean 4 invariant proof over a small-step interleaving semantics (all schedules, all n); assembly-text correspondence with '
-                 'chibicc -S; differential operator semantics against gcc; pthread stress with linearizability checks on final and returned values',
+                  'Op.fn (validated against gcc and the snapshot) in C16_opassign_no_lost_update.  C16_qualifier is about parse trees (the C text is '
+                  'printed from the tree by the driver and read by the real parser on every run) and about the author\'s reading of the standard in '
+                  'Spec/C16QualSpec.lean; chibicc is more liberal than the standard in three places that do not affect the property (kernel-checked '
+                  'in Findings/C16Types.lean: _Atomic on an array typedef is accepted and ignored for the elements; typeof of an atomic rvalue '
+                  'keeps the flag; &array has pointer-to-element type).  Plain loads/stores of _Atomic struct/union/long double objects are not '
+                  'single instructions and are outside the model (observation recorded in ASSUMPTIONS; every read-modify-write on them is a '
+                  'diagnostic).  Memory-ordering effects of plain atomic_store/atomic_load beyond single-copy atomicity are outside the model.',
+    'technique': 'Lean 4 invariant proof over a small-step interleaving semantics (all schedules, all n); simulation proof (mutual structural '
+                 'induction over specifiers and expressions) between a model of chibicc\'s is_atomic bookkeeping and a C11 type semantics; bridge '
+                 'lemmas from the byte-exact code-generation model to the interleaving model; assembly-text and typed-AST correspondence with the '
+                 'real compiler; differential operator semantics against gcc; pthread stress with linearizability checks on final and returned values',
     'design_ref': 'DESIGN.md section 6, C16',
 }
